@@ -404,6 +404,12 @@ func readHeader(in *io.Reader) (manifest []byte, mac []byte, err error) {
 		return nil, nil, errors.New("message authentication code not found")
 	}
 
+	// The manifest and MAC are slices of the pooled buffer, which is returned to
+	// the pool (and can be overwritten by its next user) as soon as we return:
+	// hand out copies
+	manifest = bytes.Clone(manifest)
+	mac = bytes.Clone(mac)
+
 	// Whatever data we read extra, add it back to the beginning of the stream
 	if n > lastNewline {
 		// We need to copy the data because the buffer will be given back
